@@ -353,8 +353,8 @@ inductive PRes where
   | outOfFuel
   deriving DecidableEq, Repr
 
-/-- The loop of `Params`.  `stdoutSet` is `r.stdout != nil`: printing through a nil writer is a
-    nil-pointer panic (reachable through `New(Params("-o"))`, where no stdout is set yet). -/
+/-- The loop of `Params`.  `stdoutSet` is `r.stdout != nil`: printing through a nil writer would be
+    a nil-pointer panic (it was reachable through `New(Params("-o"))` before fix a1547ff). -/
 def paramsLoop : Nat → Bool → FP → PState → PRes
   | 0, _, _, _ => .outOfFuel
   | fuel + 1, stdoutSet, fp, st =>
@@ -394,8 +394,12 @@ def argsSize (l : List Bytes) : Nat := (l.map fun a => a.length + 1).sum
 
 def fpSize (fp : FP) : Nat := fp.current.length + argsSize fp.remaining
 
-def params (stdoutSet : Bool) (opts : List Bool) (args : List Bytes) : PRes :=
-  paramsLoop (argsSize args + 1) stdoutSet (FP.init args) ⟨opts, none, 0⟩
+/-- `Params(args...)` on a Runner made by `New`: `r.stdout` is never nil there (New presets
+    `io.Discard` before it applies its options — fix a1547ff — and `StdIO` maps nil to `io.Discard`),
+    so `stdoutSet` is true.  (`paramsLoop … false …` only describes a `Runner` literal that did not
+    come from `New`, which the package documents as misuse.) -/
+def params (opts : List Bool) (args : List Bytes) : PRes :=
+  paramsLoop (argsSize args + 1) true (FP.init args) ⟨opts, none, 0⟩
 
 /-! ### wait -/
 
